@@ -1,7 +1,11 @@
 package main
 
 import (
+	"context"
+	"math/rand"
+
 	"fmt"
+	"github.com/vipnode/vipnode/v2/pool"
 	"sync"
 	"time"
 
@@ -11,10 +15,10 @@ import (
 func init() { commands["c05"] = runC05 }
 
 type c05Req struct {
-	Now   int64 `json:"now"`
-	ID    int   `json:"id"`
-	Nonce int64 `json:"nonce"`
-	Acc   bool  `json:"accepted"`
+	Now   int64  `json:"now"`
+	ID    int    `json:"id"`
+	Nonce int64  `json:"nonce"`
+	Acc   bool   `json:"accepted"`
 	What  string `json:"what,omitempty"`
 }
 
@@ -192,6 +196,19 @@ func runC05(ctx *Ctx) {
 			Desc: c05Desc{Driver: driverNames[drv], E: E, Reqs: reqs, Reopen: reopens}, Monitor: c05Monitor(reqs)})
 	}
 
+	// --- the same nonce histories through the signed endpoints of the real services: whatever
+	// layout or service a request uses, it is accepted iff its nonce is (verification refuses
+	// otherwise), with the driver's own model deciding as above
+	npool := ctx.N(40, 800)
+	for c := 0; c < npool; c++ {
+		i := idx
+		idx++
+		if !ctx.Want(i) {
+			continue
+		}
+		c05PoolSeq(ctx, i, ctx.Sub(i), c%2, E)
+	}
+
 	// --- racing duplicates
 	ndup := ctx.N(20, 300)
 	for c := 0; c < ndup; c++ {
@@ -244,4 +261,96 @@ func runC05(ctx *Ctx) {
 			Desc: c05Desc{Driver: driverNames[drv], E: E, Reqs: reqs, Dup: dup, DupK: k, DupAcc: acc}, Monitor: mon})
 	}
 	wg.Wait()
+}
+
+// c05PoolSeq: correctly signed requests with chosen nonces. Identity 1 = node c1 (keep-alives in
+// the current parameter layout), 2 = node c2 (keep-alives signed in the deprecated layout),
+// 3 = wallet w1 (pool_addNode, the payment service's own verification), 4 = node c3 (vipnode_peer).
+func c05PoolSeq(ctx *Ctx, i int, rng *rand.Rand, drv int, E int64) {
+	w := newWorld(worldCfg{Drv: drv, Price: "1", IntervalNs: 60e9, Settle: true})
+	defer w.Close()
+	w.aliasAll()
+	for _, n := range []string{"c1", "c2", "c3"} {
+		if _, err := w.connect(n, false, "geth", "", ""); err != nil {
+			fatal("%v", err)
+		}
+	}
+	// the connects above used nonces near the current time: start the histories above them
+	lastAcc := map[int]int64{}
+	for id := 1; id <= 4; id++ {
+		lastAcc[id] = w.nonce
+	}
+	var reqs []c05Req
+	var mon []string
+	nreq := 5 + rng.Intn(10)
+	send := func(id int, n int64) error {
+		switch id {
+		case 1:
+			req := pool.UpdateRequest{PeerInfo: peerInfos(nil), BlockNumber: uint64(len(reqs))}
+			sig := w.sign(keyFor("c1"), "vipnode_update", nodeIDOf("c1"), n, req)
+			_, err := w.pool.Update(context.Background(), sig, nodeIDOf("c1"), n, req)
+			return err
+		case 2:
+			req := pool.UpdateRequest{Peers: []string{}, BlockNumber: uint64(len(reqs))}
+			sig := w.sign(keyFor("c2"), "vipnode_update", nodeIDOf("c2"), n, oldUpdate{req.Peers, req.BlockNumber})
+			_, err := w.pool.Update(context.Background(), sig, nodeIDOf("c2"), n, req)
+			return err
+		case 3:
+			addr := walletOf("w1")
+			sig := w.sign(keyFor("w1"), "pool_addNode", addr, n, nodeIDOf("c1"))
+			return w.pay.AddNode(context.Background(), sig, addr, n, nodeIDOf("c1"))
+		default:
+			req := pool.PeerRequest{Num: 1}
+			sig := w.sign(keyFor("c3"), "vipnode_peer", nodeIDOf("c3"), n, req)
+			_, err := w.pool.Peer(context.Background(), sig, nodeIDOf("c3"), n, req)
+			return err
+		}
+	}
+	// the histories of the four identities start from the nonce their setup used
+	for id := 1; id <= 4; id++ {
+		n := time.Now().UnixNano()
+		now := time.Now().UnixNano()
+		err := send(id, n)
+		acc := classify(err).Class != "verify"
+		if acc {
+			lastAcc[id] = n
+		}
+		reqs = append(reqs, c05Req{Now: now, ID: id, Nonce: n, Acc: acc, What: "first"})
+	}
+	base := len(reqs)
+	_ = base
+	for k := 0; k < nreq; k++ {
+		id := 1 + rng.Intn(4)
+		now := time.Now().UnixNano()
+		var n int64
+		var what string
+		switch rng.Intn(8) {
+		case 0, 1:
+			n, what = now, "fresh"
+		case 2, 3:
+			n, what = lastAcc[id], "equal to last accepted (replay)"
+		case 4:
+			n, what = lastAcc[id]-int64(1+rng.Intn(5))*1e6, "below last accepted, fresh"
+		case 5:
+			n, what = now-E-int64(2+rng.Intn(100))*1e9, "stale"
+		case 6:
+			n, what = now+int64(rng.Intn(300))*1e9, "future-dated"
+		default:
+			n, what = lastAcc[id]+int64(1+rng.Intn(3)), "last accepted plus a little"
+		}
+		err := send(id, n)
+		e := classify(err)
+		acc := e.Class != "verify"
+		if acc {
+			lastAcc[id] = n
+		}
+		reqs = append(reqs, c05Req{Now: now, ID: id, Nonce: n, Acc: acc, What: what + []string{"", " (keep-alive)", " (keep-alive, deprecated layout)", " (pool_addNode)", " (vipnode_peer)"}[id]})
+		ctx.Count("pool-nonce:" + what)
+	}
+	// the connects are part of the history of identities 1, 2 and 4 (same nonce table): render
+	// them as an accepted first request with the nonce they used -- they were all below the
+	// first nonces sent above, which the model then accepts as well
+	mon = append(mon, c05Monitor(reqs)...)
+	ctx.Emit(Case{I: i, Kind: "seq-pool-" + driverNames[drv], Coq: c05Coq(drv, E, reqs, nil, 0, 0),
+		Desc: c05Desc{Driver: driverNames[drv], E: E, Reqs: reqs}, Monitor: mon})
 }
